@@ -35,8 +35,16 @@ def _to_expr(prop):
     return bool(prop)
 
 
+class PathTimeout(BaseException):
+    """one path of the code under test did not finish within the per-path wall limit"""
+
+
+def _on_alarm(signum, frame):
+    raise PathTimeout()
+
+
 def explore(run, *, time_limit=120.0, max_paths=10 ** 9, max_viol=24, step_budget=400_000,
-            qtimeout_ms=20_000, sample_per_tag=1, initial_stack=None, keep_pending=False):
+            qtimeout_ms=20_000, sample_per_tag=1, initial_stack=None, keep_pending=False, path_timeout=90.0):
     """run(ctx) -> (prop, tag) | (prop, tag, info).  Returns a result dict.
 
     initial_stack: decision prefixes to explore (default: the root).  keep_pending: when the
@@ -52,6 +60,12 @@ def explore(run, *, time_limit=120.0, max_paths=10 ** 9, max_viol=24, step_budge
     }
     seen_viol_tags = {}
     sampled = {}
+    import signal
+    import threading
+
+    use_alarm = bool(path_timeout) and threading.current_thread() is threading.main_thread() and hasattr(signal, "setitimer")
+    if use_alarm:
+        old_handler = signal.signal(signal.SIGALRM, _on_alarm)
     while stack:
         if time.time() - t0 > time_limit or res["paths"] >= max_paths:
             res["timed_out"] = True
@@ -64,9 +78,19 @@ def explore(run, *, time_limit=120.0, max_paths=10 ** 9, max_viol=24, step_budge
         viol = None
         try:
             try:
-                r = run(ctx)
+                if use_alarm:
+                    signal.setitimer(signal.ITIMER_REAL, path_timeout)
+                try:
+                    r = run(ctx)
+                finally:
+                    if use_alarm:
+                        signal.setitimer(signal.ITIMER_REAL, 0)
                 prop, tag = r[0], r[1]
                 info = r[2] if len(r) > 2 else None
+            except PathTimeout:
+                # a hang (or super-linear work) in the code under test is a finding, not a stuck check
+                prop, tag = False, "PATH-TIMEOUT"
+                info = {"key": "path-does-not-finish", "limit_s": path_timeout}
             except Violation as v:
                 prop, tag, info = False, "VIOLATION:" + v.tag, v.detail
             except (Abort, Incomplete, StepBudget):
@@ -136,6 +160,9 @@ def explore(run, *, time_limit=120.0, max_paths=10 ** 9, max_viol=24, step_budge
             except (Abort, Incomplete):
                 pass
         _acc(res, ctx)
+    if use_alarm:
+        signal.setitimer(signal.ITIMER_REAL, 0)
+        signal.signal(signal.SIGALRM, old_handler)
     res["wall_s"] = time.time() - t0
     res["entered"] = sorted(res["entered"])
     res["notes"] = sorted(res["notes"])
